@@ -509,7 +509,10 @@ func (rf *ReplicaFollower) aofSync(followerSp StartPoint, stream pb.ApiService_S
 	}
 
 	left := resp.GetOffset()
-	if left > sp.Offset && !sp.IsInitial() {
+	// the leader's data joins what the follower holds only when it starts exactly at the follower's newest
+	// offset : beyond it there would be a hole, before it (the leader switched to another replication history
+	// whose position lies inside the follower's range) the old bytes would stay under the new id
+	if left != sp.Offset && !sp.IsInitial() {
 		if err = rf.channel.DelRunId(followerSp.RunId); err != nil {
 			return errors.Join(ErrRestart, err)
 		}
